@@ -50,13 +50,15 @@ pub fn scenario(family: &str, seed: u64) -> Scenario {
     for l in [&mut c, &mut s] {
         l.cc = if rng.random_bool(0.3) { "bbr".into() } else { "cubic".into() };
         l.max_mtu = pick(rng, &[1300u16, 1350, 1500, 4000, 9000]);
+        l.max_ack_delay_ms = pick(rng, &[25u64, 25, 5, 60, 200]);
     }
-    let mut sc = Scenario { seed, family: family.into(), c, s, net: net.clone(), streams: vec![], close: "c".into(), close_at_us: 0, linger_us: 300_000, deadline_us: 120_000_000, rebinds: vec![], cid_lifetime_s: 0, violation: None };
+    let mut sc = Scenario { seed, family: family.into(), c, s, net: net.clone(), streams: vec![], close: "c".into(), close_at_us: 0, linger_us: 300_000, deadline_us: 120_000_000, rebinds: vec![], cid_lifetime_s: 0, violation: None, retry: false };
     match family {
         // clean network, default windows: the happy path
         "clean" => {
             let n = rng.random_range(1..5);
             sc.streams = streams(rng, n, 300_000);
+            sc.retry = rng.random_bool(0.25);
         }
         // random faults on every datagram
         "lossy" => {
@@ -68,6 +70,7 @@ pub fn scenario(family: &str, seed: u64) -> Scenario {
             net.heal_at_us = Some(pick(rng, &[2_000_000u64, 10_000_000, 40_000_000]));
             let n = rng.random_range(1..5);
             sc.streams = streams(rng, n, 120_000);
+            sc.retry = rng.random_bool(0.25);
         }
         // tiny windows and limits: every kind of blocking
         "tiny" => {
@@ -191,6 +194,27 @@ pub fn scenario(family: &str, seed: u64) -> Scenario {
                 net.schedule.push((dir.to_string(), rng.random_range(0..60) + i, "replay_late".to_string()));
             }
         }
+        // verbatim replays of genuine datagrams long after the receiver's duplicate window has moved past them,
+        // during bulk transfers with many packets in flight (2-byte packet number encodings)
+        "replay" => {
+            net.replay_late = pick(rng, &[60u32, 150]);
+            net.dup = pick(rng, &[0u32, 30]);
+            net.inject = pick(rng, &[12u32, 30]);
+            net.inject_from_us = 0;
+            net.inject_to_us = 1_500_000;
+            net.delay_us = pick(rng, &[5_000u64, 20_000]);
+            sc.streams = streams(rng, 1, 100_000);
+            let sp = &mut sc.streams[0];
+            sp.opener = "c".into(); sp.bidi = true;
+            sp.send = pick(rng, &[400_000u64, 900_000]);
+            sp.reply = pick(rng, &[0u64, 300_000]);
+            sp.chunk = 16_000; sp.reply_chunk = 16_000; sp.read_delay_us = 0;
+            sp.write_mode = String::new(); sp.read_mode = String::new();
+            for l in [&mut sc.c, &mut sc.s] {
+                l.data_window = 2_000_000; l.sd_bidi_local = 1_000_000; l.sd_bidi_remote = 1_000_000;
+            }
+            sc.deadline_us = 60_000_000;
+        }
         // handshake under loss / duplication / one-way blackholes, unroutable datagrams, early close
         "handshake" => {
             for _ in 0..rng.random_range(0..3) {
@@ -212,6 +236,7 @@ pub fn scenario(family: &str, seed: u64) -> Scenario {
                 sc.close_at_us = pick(rng, &[1_000u64, 30_000, 70_000, 150_000]);
             }
             sc.deadline_us = 40_000_000;
+            sc.retry = rng.random_bool(0.4);
         }
         // long-lived connection: connection id expiry/rotation, NAT rebinding and migration of the client, small
         // active_connection_id_limit values, loss of NEW_CONNECTION_ID / RETIRE_CONNECTION_ID frames
@@ -233,6 +258,29 @@ pub fn scenario(family: &str, seed: u64) -> Scenario {
             }
             sc.rebinds.sort();
             sc.deadline_us = 400_000_000;
+        }
+        // connection migration between paths of very different round-trip times while both sides have data in flight
+        "migrate" => {
+            net.drop = pick(rng, &[0u32, 0, 30]);
+            net.jitter_us = 0;
+            let slow = pick(rng, &[80_000u64, 150_000, 300_000]);
+            let fast = pick(rng, &[2_000u64, 5_000, 15_000]);
+            net.delay_us = slow;
+            net.addr_delays_us = (0..6).map(|k| if k % 2 == 0 { slow } else { fast }).collect();
+            for l in [&mut sc.c, &mut sc.s] {
+                l.acid_limit = pick(rng, &[3u64, 5, 8]);
+                l.idle_ms = 30_000;
+            }
+            sc.streams = vec![
+                StreamSpec { opener: "c".into(), bidi: true, send: 100, reply: pick(rng, &[400_000u64, 1_500_000]), chunk: 100, reply_chunk: 8_000, finish: true, ..Default::default() },
+                StreamSpec { opener: "c".into(), bidi: false, send: pick(rng, &[200_000u64, 800_000]), chunk: 8_000, finish: true, ..Default::default() },
+            ];
+            let mut t = slow * pick(rng, &[8u64, 12, 20]);
+            for _ in 0..rng.random_range(1..4) {
+                sc.rebinds.push((t, rng.random_bool(0.5)));
+                t += pick(rng, &[400_000u64, 1_500_000, 4_000_000]);
+            }
+            sc.deadline_us = 300_000_000;
         }
         // the network dies for good at some point of the handshake or transfer: both applications must learn it
         "blackhole" => {
@@ -260,8 +308,9 @@ pub fn scenario(family: &str, seed: u64) -> Scenario {
             }
             net.drop = pick(rng, &[0u32, 100]);
             net.heal_at_us = Some(t);
+            let idle = pick(rng, &[30_000u64, 120_000, 120_000]);
             for l in [&mut sc.c, &mut sc.s] {
-                l.idle_ms = 30_000;
+                l.idle_ms = idle;
                 l.data_window = pick(rng, &[2000u64, 1 << 20]);
                 l.sd_bidi_local = pick(rng, &[1000u64, 1 << 18]);
                 l.sd_bidi_remote = pick(rng, &[1000u64, 1 << 18]);
